@@ -284,7 +284,17 @@ func runC06(t *mon.T, raw json.RawMessage) {
 	}
 	s.mark("call:finalize")
 	ferr := s.finalize()
-	if ferr != nil && failAfter < 0 {
+	if cfg.NoIdx {
+		t.Cover("sessions-opened-without-index")
+	}
+	finRefused := false
+	if ferr != nil && cfg.NoIdx {
+		// the library refuses to finalize a session opened WithoutIndex: the session then ends with that
+		// refusal, and every image on the way there is judged like any other; should a Finalize of such
+		// a session ever succeed, its writes are part of the trace and judged too
+		finRefused = true
+		t.Cover("finalize-refused:without-index")
+	} else if ferr != nil && failAfter < 0 {
 		t.Violatef(key("session/finalize/error"), "%v", ferr)
 		s.close()
 		return
@@ -321,6 +331,15 @@ func runC06(t *mon.T, raw json.RawMessage) {
 		tw.close()
 	}
 	fa, err := refcar.Decode(layout, false)
+	if err != nil && finRefused && len(layout) >= int(51+cfg.DataPad) {
+		// never finalized: pragma, blank header, payload
+		off := 51 + cfg.DataPad
+		var pl *refcar.Payload
+		if pl, err = refcar.DecodeV1(layout[off:], false); err == nil {
+			fa = &refcar.Archive{Version: 2, PayloadOff: off, PayloadLen: uint64(len(layout)) - off, Payload: pl}
+			fa.V2.DataOffset, fa.V2.DataSize = off, uint64(len(layout))-off
+		}
+	}
 	if err != nil {
 		t.Violatef(key("session/final/undecodable"), "uninterrupted session gives an undecodable file: %v", err)
 		return
@@ -530,6 +549,10 @@ func c06Judge(t *mon.T, d c06Desc, key func(string) string, phase string, ei, te
 		}
 	}
 	if err := s.finalize(); err != nil {
+		if cfg.NoIdx {
+			t.Cover("continued:finalize-refused:without-index")
+			return
+		}
 		viol("continued/finalize-error", "Finalize of the resumed store failed: %v", err)
 		return
 	}
@@ -561,7 +584,11 @@ func c06Judge(t *mon.T, d c06Desc, key func(string) string, phase string, ei, te
 	if !lab.CidsEqual(lab.ToCids(a.Payload.Header.Roots, false), rootsRaw) {
 		viol("continued/final-archive-roots", "roots differ")
 	}
-	if a.Version == 2 {
+	if a.Version == 2 && cfg.NoIdx {
+		if a.V2.IndexOffset != 0 || a.V2.DataOffset != 51+cfg.DataPad {
+			viol("continued/final-archive-header", "header fields of an index-less archive inconsistent: %+v", a.V2)
+		}
+	} else if a.Version == 2 {
 		pi, err := refcar.ParseIndex(a.IndexBytes)
 		if err != nil || pi.Size != len(a.IndexBytes) {
 			viol("continued/final-archive-index", "index does not parse strictly: %v", err)
@@ -582,6 +609,12 @@ func genC06(g *mon.G) {
 	n := g.Pick(192, 1920)
 	for i := 0; i < n; i++ {
 		g.Emit(c06Desc{Seed: r.Int63(), API: []string{"blockstore", "storage"}[i%2], Cfg: cfgs[(i/2)%len(cfgs)], FirstGen: gens[(i/16)%len(gens)], AllBytes: g.Thorough() || i%8 == 0})
+	}
+	// sessions opened WithoutIndex: the library refuses to finalize them (then the session ends with the
+	// refusal); if a Finalize of such a session succeeds, its writes are crash points like any other
+	for i := 0; i < g.Pick(16, 96); i++ {
+		g.Emit(c06Desc{Seed: r.Int63(), API: []string{"blockstore", "storage"}[i%2], Cfg: []lab.Cfg{{NoIdx: true}, {NoIdx: true, DataPad: 9}, {NoIdx: true, DataPad: 300}}[(i/2)%3],
+			FirstGen: []string{"", "discarded"}[(i/6)%2], AllBytes: g.Thorough() || i%4 == 0})
 	}
 	// hook-independence: the hook trace vs the system calls strace sees on an untapped child
 	for i := 0; i < g.Pick(12, 80); i++ {
@@ -614,7 +647,7 @@ func init() {
 		Assumptions: []string{"crash model = prefix of the issued writes with the last write torn (no reordering), as the property states", "trace completeness is checked per session: replaying the trace must reproduce the final file", "hook independence: for 12 (quick) / 80 (thorough) blockstore sessions the hook trace is compared call by call with the pwrite64/ftruncate system calls strace records for the same session in an untapped child process (inconclusive if strace cannot attach)"},
 		Gen:         genC06,
 		Run:         runC06,
-		MinCover: map[string]int{"crash-images": 3000, "failed-finalize:finalize-failed": 10, "cut:inside-or-after-a-failed-finalize": 20, "reopen:accepted": 500, "reopen:rejected": 100, "continued-and-finalized": 500,
+		MinCover: map[string]int{"crash-images": 3000, "sessions-opened-without-index": 10, "failed-finalize:finalize-failed": 10, "cut:inside-or-after-a-failed-finalize": 20, "reopen:accepted": 500, "reopen:rejected": 100, "continued-and-finalized": 500,
 			"cut:put.section.data:torn": 50, "cut:put.section.cid:torn": 50, "cut:finalize.index": 50, "cut:finalize.header.fields:torn": 20, "cut:resume.truncate": 5, "cut:resume.unfinalize-header.fields:torn": 5, "cut:open.payload-header:torn": 10, "large-sessions(index > 1 KiB)": 8, "strace:cases": 4},
 	})
 }
